@@ -4,7 +4,7 @@ import json, glob, os
 V = os.path.dirname(os.path.dirname(os.path.abspath(__file__)))
 print("| seed | breaks | change | needs | checks run (quick tier) → result |")
 print("|---|---|---|---|---|")
-for d in sorted(glob.glob(os.path.join(V, "seeded", "S*"))):
+for d in sorted(glob.glob(os.path.join(V, "seeded", "S*")), key=lambda x: int(os.path.basename(x)[1:].split("-")[0])):
     m = json.load(open(os.path.join(d, "meta.json")))
     def word(r):
         w = {0: "not noticed (exit 0)", 1: "**VIOLATION** (%d replay(s))" % r["violation_lines"], 2: "inconclusive (exit 2)"}.get(r["exit"], str(r["exit"]))
